@@ -6,12 +6,16 @@ PROP = dict(
           "ExecuteSwapRequests loop with its four outcomes on cache contexts and its deletions, the coded selection over the real store keys, "
           "RouteExactAmountIn/Out hop loops with per-hop recipient and limits, UpdatePoolForSwap's transfer protocol, bank overdraft; "
           "implementation-resolved: priced amounts, insExpected, fee / nested-conversion transfers, bonus, pricing/hook failures)",
-    coq_deps=["Base/", "Models/SwapQueue.v", "Proofs/SwapQueueProofs.v", "Proofs/SwapBatchProofs.v", "Run/SwapQueueRun.v", "Props/C04.v"],
+    coq_deps=["Base/", "Models/SwapQueue.v", "Proofs/SwapQueueProofs.v", "Proofs/SwapBatchProofs.v", "Proofs/SwapRevisitProofs.v", "Run/SwapQueueRun.v", "Props/C04.v"],
     rule="histories of 2-4 blocks with 1-6 swap messages each on a fresh real app (oracle pool uusdc/uatom, constant-product uusdc/uelys and "
          "uusdc/uatom): exact-in / exact-out / by-denom, 13 valid routes (1-3 hops, cyclic) + 3 invalid, same and opposite directions on one pool, "
          "recipient = sender / other user / empty / a pool address / a module address, amounts 1..1e12 per decade and 1-101 % of the sender's balance, "
          "poor senders queuing more than they can pay, limits loose / exactly achievable / one unit either side / zero, oracle price moves between "
-         "messages; every block closed by the real FinalizeBlock+Commit; distinct = distinct (message kinds, routes, limits, results, executed/dropped "
+         "messages; on top a third as many histories in which about half of the requests (exact-in and exact-out, 2 and 3 hops) use routes that come "
+         "back to a pool they already used (there and back on one pool, A-B-A, the last pool twice in a row, one pool three times) with recipient = "
+         "sender / another user / an account that does not exist yet, minimum 1 or at / next to the achievable amount, senders rich in every denom, "
+         "and directed histories (revisited last pool with a third-party recipient; oracle pool off its weights with minimums next to the pool output); "
+         "every block closed by the real FinalizeBlock+Commit; distinct = distinct (message kinds, routes, limits, results, executed/dropped "
          "sets); non-trivial = at least one request stored or executed",
     trusted_base=["per-request bank operations are cut out of the committed end-block events at the token_swapped events (harness); completeness is "
                   "checked per block: every user's balance change must equal the sum of the executed requests' operations",
@@ -24,7 +28,10 @@ PROP = dict(
                "resolved amounts: handlers move no funds; the batch loop terminates within its fuel; the queue is empty and the index reset after the "
                "block; every stored request is deleted exactly once, executed at most once, and each deletion is either the written settlement of "
                "that request or changes nobody's balance; exact-in: sender -TokenIn exactly, recipient +out >= minimum, everybody else outside the "
-               "pools' own addresses untouched except treasury bonuses to sender/recipient; exact-out: recipient >= TokenOut, third parties untouched, "
+               "pools' own addresses untouched except treasury bonuses to sender/recipient; for EVERY hop list, routes that revisit pools included (induction "
+               "over the hops, no distinct-pool premise): the sender never loses anything but TokenIn, a recipient other than the sender moves in the final "
+               "denom only, and without weight bonuses every denom the route only passes through is unchanged for both (the last hop is the last POSITION; "
+               "a witness shows that recognising it by pool id breaks this on a there-and-back route); exact-out: recipient >= TokenOut, third parties untouched, "
                "sender >= -TokenInMaxAmount in the stated denom and nothing else for one hop or sender = recipient. REFUTED on the code as it is: "
                "multi-hop exact-out with recipient <> sender (sender also pays the intermediate denom; proved for the repaired routing), and "
                "MsgSwapByDenom exact-out ignores Recipient. Each block of the real app is replayed by Coq's VM through handlers and batch loop.",
